@@ -4,10 +4,10 @@ package main
 // marshalling (C02).
 
 import (
-	"hash/crc32"
 	"fmt"
 	"go/token"
 	"go/types"
+	"hash/crc32"
 	"os"
 	"strings"
 
